@@ -12,7 +12,7 @@ import gram
 from impl import trees, treeoutput, treeinput, treeanalysis, quiet, clone
 
 ID = "C03"
-MODULE = ['TT.Props.C03', 'TT.Props.C03Own', 'TT.Props.C03Options', 'TT.Props.C03Run', 'TT.Props.C03Run2', 'TT.Props.C03Total', 'TT.Props.C03Chain', 'TT.Props.C18Src', 'TT.Props.C03Words', 'TT.Props.C03Cmd', 'TT.Props.C18Dir', 'TT.Props.C03Conv19']
+MODULE = ['TT.Props.C03', 'TT.Props.C03Own', 'TT.Props.C03Options', 'TT.Props.C03Run', 'TT.Props.C03Run2', 'TT.Props.C03Total', 'TT.Props.C03Chain', 'TT.Props.C18Src', 'TT.Props.C03Words', 'TT.Props.C03Cmd', 'TT.Props.C18Dir', 'TT.Props.C03Conv19', 'TT.Props.C03Xml']
 RULE = ("`treetools transform` on generated treebanks (1..4 sentences) for all 4x5 (source, destination) format pairs, "
         "A->B->A chains, own-format round trips, encodings utf-8 / latin-1 / utf-16 on either side, gzip sources, "
         "directory sources, export v3/v4. The destination is decoded by the specification decoder and compared with "
@@ -271,6 +271,14 @@ def gen(seed, tier, scale):
     rngs = [case_rng(seed, ID, 820000 + i) for i in range((20 if tier == "quick" else 300) * scale)]
     for i, c in enumerate(cli.pmap(dircases.dir_case, rngs)):
         yield 820000 + i, c
+    # wave 19: TIGER-XML TEXT -> element structure inside the model (TT/IO/Xml.lean parseXmlDoc; Props/C03Xml.lean
+    # parseXmlDoc_write, tiger_text_roundtrip) against xml.etree.ElementTree: the real writer's documents, the same
+    # documents in other layouts of the modelled subset, structurally incomplete documents, and text outside the subset
+    import xmlcases
+    for i, c in enumerate(xmlcases.xml_cases(case_rng(seed, ID, 900000), (60 if tier == "quick" else 1500) * scale)):
+        yield 900000 + i, c
+    for i, c in enumerate(xmlcases.fixed_outside_cases()):
+        yield 950000 + i, c
     idx = 100000
     for _ in range((300 if tier == "quick" else 5000) * scale):
         rng = case_rng(seed, ID, idx)
